@@ -213,6 +213,22 @@ func c09Routes() []gReq {
 	}
 }
 
+// c09Weird: generic hostile values tried on every query-parameter and header slot.
+func c09Weird() []deviation {
+	vals := []string{" ", "0", "-0", "+1", " 1", "1 ", "01", "0x1", "1e3", "9223372036854775807", "-9223372036854775808", "-9223372036854775809", "NaN", "true",
+		strings.Repeat("9", 400), strings.Repeat("k", 5000), "\x00", "%", "%zz", "../..", "ü", "a\r\nb", "\"", "<x>&amp;", "$UID", "$VID", "k", "/"}
+	slots := []string{"q:uploadId", "q:partNumber", "q:versionId", "q:max-keys", "q:max-uploads", "q:max-parts", "q:marker", "q:continuation-token", "q:start-after",
+		"q:prefix", "q:delimiter", "q:key-marker", "q:version-id-marker", "q:upload-id-marker", "q:part-number-marker", "q:list-type", "q:encoding-type",
+		"h:Range", "h:X-Amz-Copy-Source", "h:Content-MD5", "h:X-Amz-Decoded-Content-Length", "h:If-None-Match", "h:If-Modified-Since", "h:x-amz-date", "h:Content-Type", "h:x-amz-meta-a", "h:Expect"}
+	var m []deviation
+	for _, s := range slots {
+		for _, v := range vals {
+			m = append(m, deviation{s, v, "weird:" + clip(strconv.Quote(v), 24)})
+		}
+	}
+	return m
+}
+
 func c09Menu() []deviation {
 	var m []deviation
 	add := func(slot string, vals ...string) {
@@ -495,6 +511,7 @@ func runC09(c *engine.Ctx) {
 	c.Assumptions = append(c.Assumptions, "deviation bound k=1 on every route and state (quick) / k=2 on the routing-relevant and route-specific slots (thorough, and quick on the memory backend's stateful routes)", "a 60 s watchdog per request stands in for 'never blocks' (normal latency is ~10 us)", "MethodNotAllowed may carry 400 or 405")
 	routes := c09Routes()
 	menu := c09Menu()
+	weird := c09Weird()
 	plans := c09Plans(c)
 	type job struct {
 		plan c09Plan
@@ -507,6 +524,11 @@ func runC09(c *engine.Ctx) {
 			jobs = append(jobs, job{pl, base, nil})
 			for _, d := range menu {
 				jobs = append(jobs, job{pl, base, []deviation{d}})
+			}
+			if !quick(c) || (worldName(pl.cfg) == "mem" && (pl.state.name == "versioned" || pl.state.name == "uploads")) || (pl.cfg.Kind == drv.Bolt && pl.state.name == "objects" && !pl.cfg.FailOnUnimplPage) {
+				for _, d := range weird {
+					jobs = append(jobs, job{pl, base, []deviation{d}})
+				}
 			}
 			pairs := !quick(c) || (pl.cfg.Kind == drv.Mem && !pl.cfg.HostBucket && len(pl.cfg.HostBases) == 0 && !pl.cfg.AutoBucket && !pl.cfg.NoVersioning && !pl.cfg.TimeSkew &&
 				(pl.state.name == "versioned" || pl.state.name == "uploads"))
@@ -533,6 +555,7 @@ func runC09(c *engine.Ctx) {
 	}
 	c.Bounds["routes"] = len(routes)
 	c.Bounds["menu_values"] = len(menu)
+	c.Bounds["generic_hostile_values"] = len(weird)
 	c.Bounds["configurations"] = len(plans)
 	c.Bounds["cases"] = len(jobs)
 	var omu sync.Mutex
